@@ -127,6 +127,14 @@ func (c *specCtx) tr(e ast.Expr) (tv, error) {
 		// package-qualified constant/global?
 		if id, ok := x.X.(*ast.Ident); ok && c.pkg != nil {
 			if _, isLocal := c.tryIdent(id.Name); !isLocal {
+				if id.Name == c.pkg.Name() {
+					return c.pkgObject(c.pkg, x.Sel.Name)
+				}
+				for _, p := range c.fr.enc.prog.AllPackages() {
+					if p.Pkg.Path() == id.Name {
+						return c.pkgObject(p.Pkg, x.Sel.Name)
+					}
+				}
 				for _, imp := range c.pkg.Imports() {
 					if imp.Name() == id.Name {
 						return c.pkgObject(imp, x.Sel.Name)
@@ -426,6 +434,13 @@ func (c *specCtx) selectField(a tv, name string) (tv, error) {
 	obj, path, _ := types.LookupFieldOrMethod(a.ty, true, c.pkgOrNil(), name)
 	f, ok := obj.(*types.Var)
 	if !ok || f == nil {
+		// specifications may name unexported fields of other packages
+		if p := findFieldPath(deref(a.ty), name, 0); p != nil {
+			path = p
+			ok = true
+		}
+	}
+	if !ok {
 		return tv{}, fmt.Errorf("no field %s in %s", name, a.ty)
 	}
 	cur := a
@@ -737,6 +752,13 @@ func (c *specCtx) callExpr(x *ast.CallExpr) (tv, error) {
 			return tv{a.Term, types.NewPointer(T)}, nil
 		}
 		return tv{Term{fmt.Sprintf("(ipay_I %s)", a.S), SInt}, types.NewPointer(T)}, nil
+	case "as_bytes":
+		// as_bytes(x): the []byte held by interface value x
+		a, err := c.tr(args[0])
+		if err != nil {
+			return tv{}, err
+		}
+		return tv{Term{fmt.Sprintf("(ipay_V %s)", a.S), SV}, types.NewSlice(types.Typ[types.Uint8])}, nil
 	case "isfresh":
 		// the object was allocated after the reference state (old): call entry / function entry
 		a, err := c.tr(args[0])
@@ -837,4 +859,25 @@ func (c *specCtx) callExpr(x *ast.CallExpr) (tv, error) {
 		return tv{Term{"(" + name + " " + strings.Join(as, " ") + ")", sf.Res}, nil}, nil
 	}
 	return tv{}, fmt.Errorf("unknown spec function %q", name)
+}
+
+// findFieldPath finds a field by name ignoring export rules (embedded structs included).
+func findFieldPath(t types.Type, name string, depth int) []int {
+	su, ok := deref(t).Underlying().(*types.Struct)
+	if !ok || depth > 3 {
+		return nil
+	}
+	for i := 0; i < su.NumFields(); i++ {
+		if su.Field(i).Name() == name {
+			return []int{i}
+		}
+	}
+	for i := 0; i < su.NumFields(); i++ {
+		if su.Field(i).Embedded() {
+			if p := findFieldPath(su.Field(i).Type(), name, depth+1); p != nil {
+				return append([]int{i}, p...)
+			}
+		}
+	}
+	return nil
 }
